@@ -272,6 +272,7 @@ class Interp(object):
         self.obligations = []
         self.unmodelled = []
         self.returns = []      # (Lin or None, State)
+        self.ret_ptrs = []     # ((base, offset) or None, State) when the contract has retcap
         self.counter = 0
         self.symbols_unsigned = set()
         self.unreachable = []
@@ -714,6 +715,11 @@ class Interp(object):
                 except Unmodelled:
                     val = None
             self.returns.append((val, st))
+            if inner and self.contract.get("retcap"):
+                try:
+                    self.ret_ptrs.append((self.ptr_of(inner[0], st), st))
+                except Unmodelled:
+                    self.ret_ptrs.append((None, st))
             return []
         if k == "BreakStmt":
             st.trace.append("break")
@@ -1083,6 +1089,22 @@ class Interp(object):
         return s
 
     def check_post(self):
+        # capacity of the returned buffer: the caller is promised at least `retcap` elements
+        want = self.contract.get("retcap")
+        if want:
+            for pv, st in self.ret_ptrs:
+                if pv is None or pv[0] not in st.cap:
+                    self.oblige(self.name + ":return", "retcap", "capacity of the returned pointer >= %s" % want, False,
+                                "returned pointer is not a buffer allocated in this function")
+                    continue
+                base, off = pv
+                cap = st.cap[base]
+                need = self.parse_lin(want, st) if hasattr(self, "parse_lin") else None
+                ok = False
+                if isinstance(cap, Lin) and isinstance(off, Lin) and isinstance(need, Lin):
+                    ok = proves(st.facts, need - (cap - off))
+                self.oblige(self.name + ":return", "retcap", "capacity of the returned buffer >= %s  [allocated %r]" % (want, cap),
+                            ok, "" if ok else "the buffer handed to the caller may be smaller than the caller was promised")
         posts = self.contract.get("post", [])
         if not posts:
             return
